@@ -54,11 +54,20 @@ func (w *astWalker) walk(n ast.Node) {
 		// See #252
 		w.walkIdentList(n.Names)
 		w.walk(n.Type)
+		if n.Tag != nil {
+			w.walk(n.Tag)
+		}
 
 	case *ast.FieldList:
 		for _, f := range n.List {
 			w.walk(f)
 		}
+
+	case *ast.Ident:
+		w.visit(n, nodetag.Ident)
+
+	case *ast.BasicLit:
+		w.visit(n, nodetag.BasicLit)
 
 	case *ast.Ellipsis:
 		w.visit(n, nodetag.Ellipsis)
@@ -91,6 +100,11 @@ func (w *astWalker) walk(n ast.Node) {
 		w.visit(n, nodetag.IndexExpr)
 		w.walk(n.X)
 		w.walk(n.Index)
+
+	case *ast.IndexListExpr:
+		w.visit(n, nodetag.IndexListExpr)
+		w.walk(n.X)
+		w.walkExprList(n.Indices)
 
 	case *ast.SliceExpr:
 		w.visit(n, nodetag.SliceExpr)
@@ -148,6 +162,9 @@ func (w *astWalker) walk(n ast.Node) {
 
 	case *ast.FuncType:
 		w.visit(n, nodetag.FuncType)
+		if n.TypeParams != nil {
+			w.walk(n.TypeParams)
+		}
 		if n.Params != nil {
 			w.walk(n.Params)
 		}
@@ -171,6 +188,9 @@ func (w *astWalker) walk(n ast.Node) {
 	case *ast.DeclStmt:
 		w.visit(n, nodetag.DeclStmt)
 		w.walk(n.Decl)
+
+	case *ast.EmptyStmt:
+		w.visit(n, nodetag.EmptyStmt)
 
 	case *ast.LabeledStmt:
 		w.visit(n, nodetag.LabeledStmt)
@@ -330,6 +350,9 @@ func (w *astWalker) walk(n ast.Node) {
 			w.walk(n.Doc)
 		}
 		w.walk(n.Name)
+		if n.TypeParams != nil {
+			w.walk(n.TypeParams)
+		}
 		w.walk(n.Type)
 		if n.Comment != nil {
 			w.walk(n.Comment)
